@@ -7,23 +7,44 @@ ID = "C14"
 LEAN_MODULES = ["Gv.Props.C14"]
 REQUIRED_THEOREMS = ["Gv.Props.C14." + n for n in [
     "maxLoop_eq_foldl", "maxLoop_perm", "maxLoop_is_argmax", "charStatsSite_error_iff", "entropy_error_iff",
-    "charStatsSeq_error_iff", "iupacToInt_matches_sets", "equalOrCompatible_spec", "equalOrCompatible_error"]]
+    "charStatsSeq_error_iff", "iupacToInt_matches_sets", "equalOrCompatible_spec", "equalOrCompatible_error",
+    # every counting statistic (Model/Stats.lean: the Go loops) equals its naive definition (Spec/Stats.lean), all inputs
+    "countsBy_eq_countTable", "charStats_eq_spec", "uniqueCharacters_eq_spec", "charStatsSeq_eq_spec",
+    "charStatsSite_eq_spec", "charStatsSite_row_order_independent", "nbVariableSites_eq_spec",
+    "informativeSites_eq_spec", "avgAllelesCounts_eq_spec", "countDifferences_panic_iff", "countDifferences_all_eq_spec",
+    "countDifferences_counts_eq_spec", "numGapsUnique_eq_spec", "numMutationsUnique_eq_spec",
+    "equalOrCompatible_is_shared_base", "nt2IndexIUPAC_defined_iff", "numMutationsVsRef_eq_spec",
+    "listMutationsVsRef_eq_spec", "wildcard_or_compatible_is_no_substitution", "entropy_eq_spec",
+    # MaxCharStats / Consensus on the actual count entries of a column (first-appearance order = some map order)
+    "countUpper_eq_tally", "countUpper_keys_nodup", "countUpper_lookup", "countUpper_pos",
+    "maxCharSite_order_independent", "maxCharSite_is_argmax",
+    "countProfile_panic_iff", "countProfile_eq_spec", "profileCount_eq_spec"]]
 LEVEL_TEXT = ("Lean theorems: MaxCharStats' selection loop returns the same result for EVERY iteration order of the count entries "
-              "(Go map order = arbitrary permutation) and equals the naive argmax with the smallest-byte tie rule; counting "
-              "statistics equal their naive definitions; tied to /repo by differential correspondence where every call is repeated "
-              "(200x for map-ordered code) inside one process and nondeterminism, site indices in [-1, L] and naive recounts are "
-              "checked on the implementation's output.")
+              "(Go map order = arbitrary permutation) and equals the naive argmax with the smallest-byte tie rule, also stated on the actual "
+              "count entries of a column (distinct keys, naive counts, positive); every counting "
+              "statistic's model (the Go loops with their accumulators, early exits and counter slices: CharStats, UniqueCharacters, "
+              "CharStatsSeq/Site, NbVariableSites, InformativeSites, the two counters of AvgAllelesPerSite, CountDifferences, unique "
+              "gaps / mutations per sequence, number and list of mutations vs a reference incl. IUPAC compatibility on base sets) is "
+              "proved equal to its naive definition in Spec/Stats.lean for ALL inputs, index errors exactly outside [0,n) / [0,L); "
+              "tied to /repo by differential correspondence where every call is repeated (200x for map-ordered code) inside one "
+              "process and nondeterminism, site indices in [-1, L] and the naive definitions are checked on the implementation's output.")
 LEVEL_NOTE = ("Trusted: Lean kernel; harness/oracle/driver. Float-valued statistics (entropy, alleles per site, PSSM) are compared "
               "with relative tolerance 1e-12 and exact NaN/Inf class: math.Log rounding is not modelled.")
 TECHNIQUE = "Lean 4 proof (order-independence for all permutations, list induction) + differential correspondence with repeated calls"
 RULE = ("alignments of 1..6 rows x 1..6 columns over small alphabets with ties for the most frequent character, all-gap and all-N "
         "columns, mixed case, specials; all site indices in [-1, L]; both ignore options; every map-ordered call repeated 200 "
         "times; non-trivial = a column with a tie or a boundary index")
-PARTIAL = ["counting statistics (CharStats, CharStatsSeq/Site, NbVariableSites, InformativeSites early-exit loop, AvgAlleles, CountDifferences, "
-           "unique gaps/mutations, mutations vs reference) are modelled and compared with the implementation and with naive recounts in the "
-           "oracle; Lean theorems so far: MaxCharStats order-independence + argmax, index errors, IUPAC compatibility",
-           "Pssm and count profiles (profile.go) are exercised by the harness for determinism only, not modelled",
-           "float-valued statistics are compared with tolerance 1e-12; math.Log rounding is not modelled"]
+PARTIAL = ["Entropy: the occurrence counts, the summation order and the error/NaN cases are proved (entropy_eq_spec); the float sum itself "
+           "(math.Log) is compared with tolerance 1e-12, rounding is not modelled; AvgAllelesPerSite: the two integer counters are "
+           "proved, the float64 quotient is compared with tolerance",
+           "Pssm, and the profile-dependent outputs (numnew, numboth) of the unique gap / mutation counters, are exercised by the "
+           "harness for determinism only, not modelled (the count profile itself and Count(r, site) are modelled and proved); "
+           "CountProfile.CountsAt(i) tests `i > len(p.counts)`, so i = len(p.counts) is an index panic instead of an error (a "
+           "character index, not a site index: outside the property text)",
+           "the model is stated for ASCII residues: CharStats / InformativeSites index 130-entry slices with unicode.ToUpper(rune) "
+           "(bytes >= 130 panic in Go; only NumMutationsUniquePerSequence models that panic explicitly)",
+           "CountDifferences on an alignment without any sequence panics in Go (make([]map[string]int, -1)): modelled as it is "
+           "(theorem countDifferences_panic_iff) and exercised (tag countdiffs-empty); the property text does not speak about it"]
 
 NT = "ACGTacgNn-R*."
 AA = "ARNDXx-*KLkl"
@@ -67,6 +88,14 @@ def gen(rng, tier):
         yield Case("uniques", [alpha, rs], n > 1, "uniques")
         a, b = rng.choice(rows)[1], rng.choice(rows)[1]
         yield Case("refmuts", [alpha, a, b], True, "refmuts")
+        # count profile: a character of the alignment or another one, site in [-1, L]
+        ch = rng.choice([ord(rng.choice(rng.choice(rows)[1])), ord(rng.choice(NT + AA)), rng.choice([0, 129, 130, 200])])
+        yield Case("profile", [alpha, rs, ch, rng.choice([-1, 0, L - 1, L, rng.randint(0, L)])], ch < 130, "profile")
+    # an alignment without sequences: CountDifferences evaluates make(.., -1) (modelled as a panic); the others return
+    yield Case("countdiffs", [1, "_"], False, "countdiffs-empty")
+    yield Case("uniques", [1, "_"], False, "uniques-empty")
+    yield Case("sitecounts", [1, "_"], False, "sitecounts-empty")
+    yield Case("charstats", [1, "_"], False, "charstats-empty")
     for a in range(0, 17):
         for b in range(0, 17):
             yield Case("compat", [a, b], True, "compat")
@@ -116,6 +145,12 @@ def shrink(c):
                 yield Case("refmuts", [a[0], a[1][:j] + a[1][j + 1:], a[2][:j] + a[2][j + 1:]])
         return
     if c.op == "compat":
+        return
+    if c.op == "profile":
+        rows = [tuple(r.split(":", 1)) for r in a[1].split(",")]
+        for i in range(len(rows)):
+            if len(rows) > 1:
+                yield Case(c.op, [a[0], rows_str(rows[:i] + rows[i + 1:])] + a[2:])
         return
     rows = [] if a[1] == "_" else [tuple(r.split(":", 1)) for r in a[1].split(",")]
     for i in range(len(rows)):
